@@ -156,6 +156,30 @@ def opCircuitMatrix (j : Json) : Except String Json := do
   let instrs ← (← fList j "gates").mapM parseInstr
   return matOrRaised (optRound j) (circuitMatrix fields instrs)
 
+/-- a gate object together with the value of its `inverse()`: `{particles, g, ginv}` -/
+def parseGateWithInverse (j : Json) : Except String (Instr GQ × Instr GQ) := do
+  let ps ← (← fList j "particles").mapM parseParticle
+  let ips ← (← fList j "iparticles").mapM parseParticle
+  let (nr, _, g) ← parseDense (← field j "g")
+  let (ni, _, gi) ← parseDense (← field j "ginv")
+  return (.gate ps nr g, .gate ips ni gi)
+
+/-- `circuit.inverse {fields, gates:[{particles,g,iparticles,ginv}]}` ↦ the matrices of `C`, of `C.inverse()` (reversed list of the
+inverses) and their product `C.inverse().as_matrix(fields) @ C.as_matrix(fields)` -/
+def opCircuitInverse (j : Json) : Except String Json := do
+  let fields ← (← fList j "fields").mapM parseField
+  let gs ← (← fList j "gates").mapM parseGateWithInverse
+  let rb := optRound j
+  let c := gs.map Prod.fst
+  -- `inverse()` of the k-th gate object is the value the implementation reported for it
+  let ci := (circuitInverse (fun (p : Instr GQ × Instr GQ) => (p.2, p.1)) gs).map Prod.fst
+  let M := circuitMatrix fields c
+  let Mi := circuitMatrix fields ci
+  let prod : Json := match M, Mi with
+    | .ok A, .ok B => Json.mkObj [("mat", dmatJson rb (DMat.mul B A))]
+    | _, _ => Json.null
+  return Json.mkObj [("c", matOrRaised rb M), ("ci", matOrRaised rb Mi), ("prod", prod), ("len", .num (JsonNumber.fromNat ci.length))]
+
 def parseOp (j : Json) : Except String (Op (Instr GQ)) :=
   match j with
   | .arr #[.str "append", h] => do return .append (← nat h)
